@@ -458,11 +458,13 @@ class Program:
                             vh.has_responder = True
                         elif (tt.callee.local or tt.callee.res_local) and tt.args:
                             aty = body.operand_ty(tt.args[0]) or ""
-                            m = re.match(r"^&mut (crate::.*)$", aty)
-                            if m and not tt.callee.path.endswith("Future::poll"):
+                            m = re.match(r"^&(mut )?(crate::.*)$", aty)
+                            if m and not tt.callee.path.endswith("Future::poll") and (actor.ty is None or m.group(2) == actor.ty):
+                                if actor.ty is None and not m.group(1):
+                                    continue
                                 vh.calls.append((x, tt.callee.target))
                                 if actor.ty is None:
-                                    actor.ty = m.group(1)
+                                    actor.ty = m.group(2)
             return True
         return False
 
